@@ -1,9 +1,12 @@
-(** C18, end to end: removing from the path list the image files that add_dcm refuses (none of them
-    the first file of its group) gives the same stacks; only the number of warnings differs. *)
+(** C18, end to end: removing from the path list the image files that add_dcm refuses gives the same
+    stacks (as a set of (key, stack) pairs); only the number of warnings differs.  A group may lose all
+    its files (it then disappears from both results); a group that keeps a file must keep its first one. *)
 From Coq Require Import List Bool ZArith NArith QArith Lia Permutation.
 From DV Require Import Common.Res Common.Str Generated.T_group Group.Model Group.Spec Group.ProofsBase
   Group.ProofsGroup Group.ProofsSkip.
 Import ListNotations.
+
+(* ------------------------------------------------------------------ list lemmas *)
 
 Lemma filter_compl_length {A} (q : A -> bool) (l : list A) :
   (length (filter q l) + length (filter (fun x => negb (q x)) l) = length l)%nat.
@@ -19,6 +22,51 @@ Proof.
   - congruence.
 Qed.
 
+Lemma perm_filter {A} (q : A -> bool) (a b : list A) :
+  Permutation a b -> Permutation (filter q a) (filter q b).
+Proof.
+  induction 1 as [|x l l' _ IH|x y l|l l' l'' _ IH1 _ IH2]; cbn [filter].
+  - constructor.
+  - destruct (q x); [constructor|]; exact IH.
+  - destruct (q x), (q y); try reflexivity. apply perm_swap.
+  - etransitivity; eassumption.
+Qed.
+
+Lemma perm_flat_map {A B} (g : A -> list B) (a b : list A) :
+  Permutation a b -> Permutation (flat_map g a) (flat_map g b).
+Proof. intros H. rewrite !flat_map_concat_map. apply Permutation_concat. apply Permutation_map. exact H. Qed.
+
+Lemma filter_nil_false {A} (q : A -> bool) l x : filter q l = [] -> In x l -> q x = false.
+Proof.
+  induction l as [|y ys IH]; cbn [filter]; intros H Hin; [destruct Hin|].
+  destruct (q y) eqn:E; [discriminate|]. destruct Hin as [<-|Hin]; [exact E | apply IH; assumption].
+Qed.
+
+Lemma FOP_filter {A} (R : A -> A -> Prop) (q : A -> bool) l : ForallOrdPairs R l -> ForallOrdPairs R (filter q l).
+Proof.
+  induction 1 as [|x l Hx _ IH]; cbn [filter]; [constructor|].
+  destruct (q x); [|exact IH]. constructor; [|exact IH].
+  rewrite Forall_forall in *. intros y Hy. apply filter_In in Hy. apply Hx. exact (proj1 Hy).
+Qed.
+
+Lemma FOP_perm {A} (R : A -> A -> Prop) l l' :
+  (forall x y, R x y -> R y x) -> Permutation l l' -> ForallOrdPairs R l -> ForallOrdPairs R l'.
+Proof.
+  intros Hsym Hp. induction Hp as [|x l l' Hp IH|x y l|l l' l'' _ IH1 _ IH2]; intros H.
+  - constructor.
+  - inversion H as [|? ? Hx Hr]; subst. constructor; [|apply IH; exact Hr].
+    eapply Permutation_Forall; eassumption.
+  - inversion H as [|? ? Hy Hr]; subst. inversion Hr as [|? ? Hx Hr']; subst.
+    inversion Hy as [|? ? Hyx Hyl]; subst.
+    constructor; [constructor; [apply Hsym; exact Hyx | exact Hx]|]. constructor; assumption.
+  - auto.
+Qed.
+
+Lemma list_sum_perm a b : Permutation a b -> list_sum a = list_sum b.
+Proof. unfold list_sum. induction 1; cbn [fold_right]; lia. Qed.
+
+(* ------------------------------------------------------------------ grouping without the dropped files *)
+
 Section Iso.
   Context {F : Type}.
   Variables (group_by close_tests : list str) (atol : Q).
@@ -29,197 +77,355 @@ Section Iso.
   Local Notation run := (@run F group_by close_tests atol).
   Local Notation parse_and_group := (@parse_and_group F group_by close_tests atol).
 
+  Definition ne_list {A} (l : list A) : bool := match l with [] => false | _ => true end.
+
+  Definition fsub (s : subres F) : subres F := (fst s, filter p (snd s)).
+  Definition fsubs (subs : list (subres F)) : list (subres F) := filter (fun s => ne_list (snd s)) (map fsub subs).
+  Definition fent (e : entry F) : entry F := (fst e, fsubs (snd e)).
+  Definition fm (rs : list (entry F)) : list (entry F) := filter (fun e => ne_list (snd e)) (map fent rs).
   Definition fgroup (g : group F) : group F := (fst g, filter p (snd g)).
-  Definition fsubs (subs : list (subres F)) : list (subres F) := map (fun s => (fst s, filter p (snd s))) subs.
-  Definition fm (rs : list (entry F)) : list (entry F) := map (fun e => (fst e, fsubs (snd e))) rs.
+  Definition fgroups (gs : list (group F)) : list (group F) := filter (fun g => ne_list (snd g)) (map fgroup gs).
 
-  (** no sub result starts with a file that is to be dropped *)
-  Definition heads_ok_subs (subs : list (subres F)) : Prop :=
-    forall s f, In s subs -> hd_error (snd s) = Some f -> p f = true.
-  Definition heads_ok (rs : list (entry F)) : Prop :=
-    forall e, In e rs -> heads_ok_subs (snd e).
+  (** forward invariant: no sub result is empty;  backward invariant: a sub result that starts with a
+      dropped file consists of dropped files only *)
+  Definition NE_subs (subs : list (subres F)) : Prop := Forall (fun s => snd s <> []) subs.
+  Definition NE (rs : list (entry F)) : Prop := Forall (fun e => NE_subs (snd e)) rs.
+  Definition hc_sub (s : subres F) : Prop :=
+    forall f, hd_error (snd s) = Some f -> p f = false -> filter p (snd s) = [].
+  Definition HC_subs (subs : list (subres F)) : Prop := Forall hc_sub subs.
+  Definition HC (rs : list (entry F)) : Prop := Forall (fun e => HC_subs (snd e)) rs.
 
-  (* ---- a kept file: the two runs move in lock step *)
-
-  Lemma add_sub_keep cl f subs : p f = true ->
-    add_sub atol cl f (fsubs subs) = rmap fsubs (add_sub atol cl f subs).
-  Proof.
-    intros Ep. induction subs as [|[c ms] rest IH]; cbn [fsubs map add_sub fst snd rmap].
-    - cbn [filter]. rewrite Ep. reflexivity.
-    - destruct (match_close atol c cl) as [[|]|e]; cbn [bind rmap]; try reflexivity.
-      + cbn [fsubs map fst snd]. rewrite filter_app. cbn [filter]. rewrite Ep. reflexivity.
-      + fold (fsubs rest). rewrite IH. destruct (add_sub atol cl f rest) as [r'|e]; cbn [rmap bind]; reflexivity.
-  Qed.
-
-  Lemma add_result_keep key cl f rs : p f = true ->
-    add_result atol key cl f (fm rs) = rmap fm (add_result atol key cl f rs).
-  Proof.
-    intros Ep. induction rs as [|[k subs] rest IH]; cbn [fm map add_result fst snd rmap].
-    - cbn [fsubs map filter fst snd]. rewrite Ep. reflexivity.
-    - destruct (key_eqb key k).
-      + rewrite (add_sub_keep _ _ _ Ep). destruct (add_sub atol cl f subs) as [s'|e]; cbn [rmap bind]; reflexivity.
-      + fold (fm rest). rewrite IH. destruct (add_result atol key cl f rest) as [r'|e]; cbn [rmap bind]; reflexivity.
-  Qed.
-
-  (* ---- a dropped file that joined an existing sub result leaves no trace after filtering *)
+  Lemma fsubs_cons c ms rest :
+    fsubs ((c, ms) :: rest) = match filter p ms with [] => fsubs rest | _ => (c, filter p ms) :: fsubs rest end.
+  Proof. unfold fsubs, fsub. cbn [map fst snd]. cbn [filter]. cbn [fst snd]. destruct (filter p ms); reflexivity. Qed.
 
   Lemma fsubs_app a b : fsubs (a ++ b) = fsubs a ++ fsubs b.
-  Proof. apply map_app. Qed.
+  Proof. unfold fsubs. rewrite map_app, filter_app. reflexivity. Qed.
+
   Lemma fm_app a b : fm (a ++ b) = fm a ++ fm b.
-  Proof. apply map_app. Qed.
+  Proof. unfold fm. rewrite map_app, filter_app. reflexivity. Qed.
 
-  Lemma add_sub_drop cl f subs subs' : p f = false ->
-    add_sub atol cl f subs = Ok subs' -> heads_ok_subs subs' -> fsubs subs' = fsubs subs.
+  Lemma fm_cons k subs rest :
+    fm ((k, subs) :: rest) = match fsubs subs with [] => fm rest | _ => (k, fsubs subs) :: fm rest end.
+  Proof. unfold fm, fent. cbn [map fst snd]. cbn [filter]. cbn [fst snd]. destruct (fsubs subs); reflexivity. Qed.
+
+  Lemma fsubs_single_keep cl f : p f = true -> fsubs [(cl, [f])] = [(cl, [f])].
+  Proof. intros E. rewrite fsubs_cons. cbn [filter]. rewrite E. reflexivity. Qed.
+  Lemma fsubs_single_drop cl f : p f = false -> fsubs [(cl, [f])] = [].
+  Proof. intros E. rewrite fsubs_cons. cbn [filter]. rewrite E. reflexivity. Qed.
+
+  Lemma Forall_fm (P : list gval -> Prop) rs :
+    Forall (fun e => P (fst e)) rs -> Forall (fun e => P (fst e)) (fm rs).
   Proof.
-    intros Ep H Hq. apply add_sub_spec in H.
-    destruct H as [[pre [c [ms [post [-> [-> _]]]]]]|[-> _]].
-    - rewrite !fsubs_app. cbn [fsubs map fst snd]. rewrite filter_app. cbn [filter]. rewrite Ep, app_nil_r. reflexivity.
-    - exfalso. assert (E : p f = true); [|congruence].
-      apply (Hq (cl, [f]) f); [apply in_or_app; right; left; reflexivity | reflexivity].
+    intros H. apply Forall_forall. intros e He. unfold fm in He. apply filter_In in He. destruct He as [He _].
+    apply in_map_iff in He. destruct He as [e0 [<- He0]]. rewrite Forall_forall in H. apply (H e0 He0).
   Qed.
 
-  Lemma add_result_drop key cl f rs rs' : p f = false ->
-    add_result atol key cl f rs = Ok rs' -> heads_ok rs' -> fm rs' = fm rs.
+  (* ---- add_sub / add_result on the filtered state: a kept file *)
+
+  Lemma add_sub_nonnil cl (f : F) subs subs' : add_sub atol cl f subs = Ok subs' -> subs' <> [].
   Proof.
-    intros Ep H Hq. apply add_result_spec in H.
+    destruct subs as [|[c ms] rest]; cbn [add_sub]; [intros H; injection H as <-; discriminate|].
+    destruct (match_close atol c cl) as [[|]|e]; cbn [bind]; try discriminate.
+    - intros H; injection H as <-; discriminate.
+    - destruct (add_sub atol cl f rest); cbn [bind]; [intros H; injection H as <-|]; discriminate.
+  Qed.
+
+  Lemma add_sub_keep cl f subs : p f = true -> forall subs',
+    NE_subs subs -> add_sub atol cl f subs = Ok subs' -> HC_subs subs' ->
+    add_sub atol cl f (fsubs subs) = Ok (fsubs subs').
+  Proof.
+    intros Ep. induction subs as [|[c ms] rest IH]; intros subs' Hne Hadd Hhc; cbn [add_sub] in Hadd.
+    - injection Hadd as <-. rewrite fsubs_cons. cbn [filter]. rewrite Ep. reflexivity.
+    - inversion Hne as [|? ? Hms Hner]; subst. cbn [snd] in Hms.
+      rewrite fsubs_cons.
+      destruct (match_close atol c cl) as [[|]|e] eqn:Emc; cbn [bind] in Hadd; try discriminate.
+      + injection Hadd as <-. inversion Hhc as [|? ? Hh _]; subst.
+        rewrite fsubs_cons, filter_app. cbn [filter]. rewrite Ep.
+        destruct (filter p ms) as [|y ys] eqn:Ef.
+        * exfalso. destruct ms as [|f0 ms']; [congruence|].
+          assert (E0 : p f0 = false) by (apply (filter_nil_false p (f0 :: ms')); [exact Ef | left; reflexivity]).
+          specialize (Hh f0 eq_refl E0). cbn [snd] in Hh.
+          assert (p f = false) by (apply (filter_nil_false p _ f Hh); apply in_or_app; right; left; reflexivity).
+          congruence.
+        * cbn [app add_sub]. rewrite Emc. cbn [bind]. reflexivity.
+      + destruct (add_sub atol cl f rest) as [rest'|e] eqn:Er; cbn [bind] in Hadd; [|discriminate].
+        injection Hadd as <-. inversion Hhc as [|? ? _ Hhr]; subst.
+        specialize (IH rest' Hner eq_refl Hhr). rewrite fsubs_cons.
+        destruct (filter p ms) as [|y ys]; [exact IH|].
+        cbn [add_sub]. rewrite Emc. cbn [bind]. rewrite IH. reflexivity.
+  Qed.
+
+  Lemma add_result_nomatch key cl (f : F) rs :
+    Forall (fun e => key_eqb key (fst e) = false) rs ->
+    add_result atol key cl f rs = Ok (rs ++ [(key, [(cl, [f])])]).
+  Proof.
+    induction rs as [|[k subs] rest IH]; intros H; cbn [add_result app]; [reflexivity|].
+    inversion H as [|? ? H1 H2]; subst. cbn [fst] in H1. rewrite H1, (IH H2). reflexivity.
+  Qed.
+
+  Lemma add_result_hit key cl (f : F) pre k subs post :
+    Forall (fun e => key_eqb key (fst e) = false) pre -> key_eqb key k = true ->
+    add_result atol key cl f (pre ++ (k, subs) :: post)
+    = bind (add_sub atol cl f subs) (fun subs' => Ok (pre ++ (k, subs') :: post)).
+  Proof.
+    induction pre as [|[k0 s0] pre IH]; intros H Hk; cbn [add_result app].
+    - rewrite Hk. reflexivity.
+    - inversion H as [|? ? H1 H2]; subst. cbn [fst] in H1. rewrite H1, (IH H2 Hk).
+      destruct (add_sub atol cl f subs); reflexivity.
+  Qed.
+
+  Lemma add_result_keep key cl f rs rs' : p f = true ->
+    NE rs -> ForallOrdPairs keyR rs -> add_result atol key cl f rs = Ok rs' -> HC rs' ->
+    exists X, add_result atol key cl f (fm rs) = Ok X /\ Permutation X (fm rs').
+  Proof.
+    intros Ep Hne Hk Hadd Hhc. apply add_result_spec in Hadd.
+    destruct Hadd as [[pre [k [subs [subs' [post [-> [-> [Hkk [Hs Hpre]]]]]]]]]|[-> Hall]].
+    - apply key_eqb_eq in Hkk. subst k.
+      apply Forall_app in Hne. destruct Hne as [_ Hne]. inversion Hne as [|? ? Hnes _]; subst. cbn [snd] in Hnes.
+      apply Forall_app in Hhc. destruct Hhc as [_ Hhc]. inversion Hhc as [|? ? Hhcs _]; subst. cbn [snd] in Hhcs.
+      pose proof (add_sub_keep _ _ _ Ep _ Hnes Hs Hhcs) as Hf.
+      pose proof (add_sub_nonnil _ _ _ _ Hf) as Hnn.
+      rewrite !fm_app, !fm_cons.
+      assert (Hpre' : Forall (fun e => key_eqb key (fst e) = false) (fm pre)) by (apply (Forall_fm (fun k0 => key_eqb key k0 = false)); exact Hpre).
+      destruct (fsubs subs') as [|s1 ss1] eqn:E1; [congruence|].
+      destruct (fsubs subs) as [|s0 ss0] eqn:E0.
+      + (* the entry does not exist without the dropped files: a new one is appended *)
+        cbn [add_sub] in Hf. injection Hf as <- <-.
+        assert (Hpost' : Forall (fun e => key_eqb key (fst e) = false) (fm post)).
+        { apply (Forall_fm (fun k0 => key_eqb key k0 = false)). apply FOP_app in Hk. destruct Hk as [_ [Hk _]].
+          inversion Hk as [|? ? Hx _]; subst. eapply Forall_impl; [|exact Hx]. intros e He. unfold keyR in He. cbn [fst] in He.
+          apply key_eqb_sym_false. exact He. }
+        exists ((fm pre ++ fm post) ++ [(key, [(cl, [f])])]). split.
+        * apply add_result_nomatch. apply Forall_app. split; assumption.
+        * rewrite <- app_assoc. apply Permutation_app_head. symmetry. apply Permutation_cons_append.
+      + exists (fm pre ++ (key, s1 :: ss1) :: fm post). split; [|reflexivity].
+        rewrite add_result_hit by (try exact Hpre'; apply key_eqb_refl). rewrite Hf. reflexivity.
+    - exists (fm rs ++ [(key, [(cl, [f])])]). split.
+      + apply add_result_nomatch. apply (Forall_fm (fun k0 => key_eqb key k0 = false)). exact Hall.
+      + rewrite fm_app. apply Permutation_app_head. rewrite fm_cons, (fsubs_single_keep _ _ Ep). reflexivity.
+  Qed.
+
+  (* ---- add_result on a permuted state *)
+
+  Lemma keyR_sym (a b : entry F) : keyR a b -> keyR b a.
+  Proof. unfold keyR. apply key_eqb_sym_false. Qed.
+
+  Lemma add_result_perm key cl (f : F) a b a' :
+    Permutation a b -> ForallOrdPairs keyR a -> add_result atol key cl f a = Ok a' ->
+    exists b', add_result atol key cl f b = Ok b' /\ Permutation a' b'.
+  Proof.
+    intros Hp Hk Hadd. pose proof (FOP_perm _ _ _ keyR_sym Hp Hk) as Hkb.
+    apply add_result_spec in Hadd.
+    destruct Hadd as [[pre [k [subs [subs' [post [-> [-> [Hkk [Hs _]]]]]]]]]|[-> Hall]].
+    - assert (Hin : In (k, subs) b) by (eapply Permutation_in; [exact Hp | apply in_or_app; right; left; reflexivity]).
+      apply in_split in Hin. destruct Hin as [pre2 [post2 ->]].
+      assert (Hpre2 : Forall (fun e => key_eqb key (fst e) = false) pre2).
+      { apply FOP_app in Hkb. destruct Hkb as [_ [_ Hc]]. apply Forall_forall. intros e He.
+        specialize (Hc e (k, subs) He (or_introl eq_refl)). unfold keyR in Hc. cbn [fst] in Hc.
+        apply key_eqb_eq in Hkk. subst k. exact Hc. }
+      exists (pre2 ++ (k, subs') :: post2). split.
+      + rewrite add_result_hit by assumption. rewrite Hs. reflexivity.
+      + apply Permutation_app_inv in Hp. apply Permutation_elt. exact Hp.
+    - exists (b ++ [(key, [(cl, [f])])]). split.
+      + apply add_result_nomatch. eapply Permutation_Forall; eassumption.
+      + apply Permutation_app_tail. exact Hp.
+  Qed.
+
+  (* ---- a dropped file leaves no trace *)
+
+  Lemma add_sub_drop cl f subs subs' : p f = false -> add_sub atol cl f subs = Ok subs' -> fsubs subs' = fsubs subs.
+  Proof.
+    intros Ep H. apply add_sub_spec in H. destruct H as [[pre [c [ms [post [-> [-> _]]]]]]|[-> _]].
+    - rewrite !fsubs_app, !fsubs_cons, filter_app. cbn [filter]. rewrite Ep, app_nil_r. reflexivity.
+    - rewrite fsubs_app, (fsubs_single_drop _ _ Ep), app_nil_r. reflexivity.
+  Qed.
+
+  Lemma add_result_drop key cl f rs rs' : p f = false -> add_result atol key cl f rs = Ok rs' -> fm rs' = fm rs.
+  Proof.
+    intros Ep H. apply add_result_spec in H.
     destruct H as [[pre [k [s [s' [post [-> [-> [_ [Hs _]]]]]]]]]|[-> _]].
-    - rewrite !fm_app. cbn [fm map fst snd]. f_equal. f_equal. f_equal.
-      eapply add_sub_drop; [exact Ep | exact Hs|].
-      apply (Hq (k, s')). apply in_or_app; right; left; reflexivity.
-    - exfalso. assert (E : p f = true); [|congruence].
-      assert (Hin : In (key, [(cl, [f])]) (rs ++ [(key, [(cl, [f])])])) by (apply in_or_app; right; left; reflexivity).
-      apply (Hq _ Hin (cl, [f]) f); [left; reflexivity | reflexivity].
+    - rewrite !fm_app, !fm_cons, (add_sub_drop _ _ _ _ Ep Hs). reflexivity.
+    - rewrite fm_app, fm_cons, (fsubs_single_drop _ _ Ep). change (fm []) with (@nil (entry F)). rewrite app_nil_r. reflexivity.
   Qed.
 
-  (* ---- heads never change, so the condition on the final state holds for every earlier state *)
+  (* ---- invariants *)
 
-  Lemma hd_error_app_some (ms : list F) x f0 : hd_error ms = Some f0 -> hd_error (ms ++ [x]) = Some f0.
-  Proof. destruct ms; cbn; [discriminate | auto]. Qed.
-
-  Lemma add_sub_heads cl f subs subs' :
-    add_sub atol cl f subs = Ok subs' -> heads_ok_subs subs' -> heads_ok_subs subs.
+  Lemma add_sub_NE cl (f : F) subs subs' : add_sub atol cl f subs = Ok subs' -> NE_subs subs -> NE_subs subs'.
   Proof.
-    intros H Hq s f0 Hs Hh. apply add_sub_spec in H.
-    destruct H as [[pre [c [ms [post [-> [-> _]]]]]]|[-> _]].
-    - apply in_app_or in Hs. destruct Hs as [Hs|[<-|Hs]].
-      + apply (Hq s f0); [apply in_or_app; left; exact Hs | exact Hh].
-      + apply (Hq (c, ms ++ [f]) f0); [apply in_or_app; right; left; reflexivity|].
-        cbn [snd] in *. apply hd_error_app_some. exact Hh.
-      + apply (Hq s f0); [apply in_or_app; right; right; exact Hs | exact Hh].
-    - apply (Hq s f0); [apply in_or_app; left; exact Hs | exact Hh].
+    intros H Hne. apply add_sub_spec in H. destruct H as [[pre [c [ms [post [-> [-> _]]]]]]|[-> _]].
+    - apply Forall_app in Hne. destruct Hne as [H1 H2]. inversion H2; subst.
+      apply Forall_app. split; [exact H1|]. constructor; [|assumption]. cbn [snd]. destruct ms; discriminate.
+    - apply Forall_app. split; [exact Hne|]. constructor; [cbn; discriminate | constructor].
   Qed.
 
-  Lemma add_result_heads key cl f rs rs' :
-    add_result atol key cl f rs = Ok rs' -> heads_ok rs' -> heads_ok rs.
+  Lemma add_result_NE key cl (f : F) rs rs' : add_result atol key cl f rs = Ok rs' -> NE rs -> NE rs'.
   Proof.
-    intros H Hq e He. apply add_result_spec in H.
+    intros H Hne. apply add_result_spec in H.
     destruct H as [[pre [k [s [s' [post [-> [-> [_ [Hs _]]]]]]]]]|[-> _]].
-    - apply in_app_or in He. destruct He as [He|[<-|He]].
-      + apply Hq. apply in_or_app; left; exact He.
-      + cbn [snd]. eapply add_sub_heads; [exact Hs|].
-        apply (Hq (k, s')). apply in_or_app; right; left; reflexivity.
-      + apply Hq. apply in_or_app; right; right; exact He.
-    - apply Hq. apply in_or_app; left; exact He.
+    - apply Forall_app in Hne. destruct Hne as [H1 H2]. inversion H2; subst.
+      apply Forall_app. split; [exact H1|]. constructor; [|assumption]. cbn [snd] in *. eapply add_sub_NE; eassumption.
+    - apply Forall_app. split; [exact Hne|]. constructor; [|constructor]. cbn [snd]. constructor; [cbn; discriminate | constructor].
   Qed.
 
-  Lemma step_heads warn st r st' : step warn st r = Ok st' -> heads_ok (fst st') -> heads_ok (fst st).
+  Lemma add_result_keys key cl (f : F) rs rs' :
+    add_result atol key cl f rs = Ok rs' -> ForallOrdPairs keyR rs -> ForallOrdPairs keyR rs'.
+  Proof.
+    intros H Hk. apply add_result_spec in H.
+    destruct H as [[pre [k [s [s' [post [-> [-> _]]]]]]]|[-> Hall]].
+    - eapply FOP_replace; [| |exact Hk]; intros y Hy; exact Hy.
+    - apply FOP_snoc. split; [exact Hk|]. intros a Ha. rewrite Forall_forall in Hall. apply Hall; exact Ha.
+  Qed.
+
+  Lemma hc_sub_back c (ms : list F) f : hc_sub (c, ms ++ [f]) -> hc_sub (c, ms).
+  Proof.
+    unfold hc_sub. cbn [snd]. intros H f0 Hh E0.
+    assert (Hh' : hd_error (ms ++ [f]) = Some f0) by (destruct ms; cbn in *; [discriminate | exact Hh]).
+    specialize (H f0 Hh' E0). rewrite filter_app in H. apply app_eq_nil in H. exact (proj1 H).
+  Qed.
+
+  Lemma add_sub_HC cl (f : F) subs subs' : add_sub atol cl f subs = Ok subs' -> HC_subs subs' -> HC_subs subs.
+  Proof.
+    intros H Hh. apply add_sub_spec in H. destruct H as [[pre [c [ms [post [-> [-> _]]]]]]|[-> _]].
+    - apply Forall_app in Hh. destruct Hh as [H1 H2]. inversion H2; subst.
+      apply Forall_app. split; [exact H1|]. constructor; [|assumption]. eapply hc_sub_back; eassumption.
+    - apply Forall_app in Hh. exact (proj1 Hh).
+  Qed.
+
+  Lemma add_result_HC key cl (f : F) rs rs' : add_result atol key cl f rs = Ok rs' -> HC rs' -> HC rs.
+  Proof.
+    intros H Hh. apply add_result_spec in H.
+    destruct H as [[pre [k [s [s' [post [-> [-> [_ [Hs _]]]]]]]]]|[-> _]].
+    - apply Forall_app in Hh. destruct Hh as [H1 H2]. inversion H2; subst.
+      apply Forall_app. split; [exact H1|]. constructor; [|assumption]. cbn [snd] in *. eapply add_sub_HC; eassumption.
+    - apply Forall_app in Hh. exact (proj1 Hh).
+  Qed.
+
+  Lemma step_HC warn st r st' : step warn st r = Ok st' -> HC (fst st') -> HC (fst st).
   Proof.
     destruct r as [e|attrs f m]; cbn [Model.step].
     - destruct warn; [|discriminate]. intros H; injection H as <-. auto.
     - destruct (negb (is_image attrs)); [intros H; injection H as <-; auto|].
       destruct (add_result _ _ _ _ _) as [rs'|e] eqn:E; cbn [bind]; [|discriminate].
-      intros H; injection H as <-. cbn [fst]. eapply add_result_heads; exact E.
+      intros H; injection H as <-. cbn [fst]. eapply add_result_HC; exact E.
   Qed.
 
-  Lemma run_heads warn l : forall st st', run warn st l = Ok st' -> heads_ok (fst st') -> heads_ok (fst st).
+  Lemma run_HC warn l : forall st st', run warn st l = Ok st' -> HC (fst st') -> HC (fst st).
   Proof.
     induction l as [|r l IH]; intros st st'; cbn [Model.run].
     - intros H; injection H as <-. auto.
     - destruct (step warn st r) as [st1|e] eqn:E; cbn [bind]; [|discriminate].
-      intros H Hq. eapply step_heads; [exact E|]. eapply IH; eassumption.
+      intros H Hq. eapply step_HC; [exact E|]. eapply IH; eassumption.
   Qed.
 
-  (* ---- the loop *)
+  (* ---- the loop: the run without the dropped files is a permutation of the filtered full run *)
 
-  Lemma run_filter warn l : forall st st',
-    run warn st l = Ok st' -> heads_ok (fst st') ->
-    run warn (fm (fst st), snd st) (drop_files p l) = Ok (fm (fst st'), snd st').
+  Lemma fm_keys rs : ForallOrdPairs keyR rs -> ForallOrdPairs keyR (fm rs).
   Proof.
-    induction l as [|r l IH]; intros st st'; cbn [Model.run drop_files filter].
-    - intros H; injection H as <-. reflexivity.
-    - destruct (step warn st r) as [st1|e] eqn:E; cbn [bind]; [|discriminate].
-      intros H Hq. pose proof (run_heads _ _ _ _ H Hq) as Hq1. specialize (IH _ _ H Hq).
-      fold (drop_files p l).
+    intros H. unfold fm. apply FOP_filter. apply FOP_map. eapply FOP_impl_in; [|exact H].
+    intros a b _ _ Hab. exact Hab.
+  Qed.
+
+  Lemma run_sim warn l : forall st1 st1' rs2,
+    run warn st1 l = Ok st1' -> NE (fst st1) -> ForallOrdPairs keyR (fst st1) -> HC (fst st1') ->
+    Permutation (fm (fst st1)) rs2 ->
+    exists rs2', run warn (rs2, snd st1) (drop_files p l) = Ok (rs2', snd st1') /\ Permutation (fm (fst st1')) rs2'.
+  Proof.
+    induction l as [|r l IH]; intros st1 st1' rs2 Hrun Hne Hk Hhc Hp; cbn [Model.run drop_files filter] in *.
+    - injection Hrun as <-. exists rs2. split; [reflexivity | exact Hp].
+    - destruct (step warn st1 r) as [sta|e] eqn:E; cbn [bind] in Hrun; [|discriminate].
+      pose proof (run_HC _ _ _ _ Hrun Hhc) as Hhca. fold (drop_files p l).
       destruct r as [e|attrs f m]; cbn [keep_rd Model.step] in *.
-      + cbn [Model.run Model.step fst snd]. destruct warn; [|discriminate]. injection E as <-. cbn [bind]. exact IH.
+      + destruct warn; [|discriminate]. injection E as <-. cbn [fst snd] in *.
+        cbn [Model.run Model.step bind fst snd]. apply (IH (fst st1, S (snd st1)) st1' rs2 Hrun Hne Hk Hhc Hp).
       + destruct (is_image attrs) eqn:Ei; cbn [negb orb] in *.
-        * destruct (add_result atol _ _ f (fst st)) as [rs1|e] eqn:Ea; cbn [bind] in E; [|discriminate].
+        * destruct (add_result atol _ _ f (fst st1)) as [rsa|e] eqn:Ea; cbn [bind] in E; [|discriminate].
           injection E as <-. cbn [fst snd] in *.
+          pose proof (add_result_NE _ _ _ _ _ Ea Hne) as Hnea. pose proof (add_result_keys _ _ _ _ _ Ea Hk) as Hka.
           destruct (p f) eqn:Ep.
-          -- cbn [Model.run Model.step fst snd]. rewrite Ei. cbn [negb].
-             rewrite (add_result_keep _ _ _ _ Ep), Ea. cbn [rmap bind]. exact IH.
-          -- rewrite (add_result_drop _ _ _ _ _ Ep Ea Hq1) in IH. exact IH.
-        * injection E as <-. cbn [Model.run Model.step fst snd]. rewrite Ei. cbn [negb bind]. exact IH.
+          -- destruct (add_result_keep _ _ _ _ _ Ep Hne Hk Ea Hhca) as [X [HX HXp]].
+             destruct (add_result_perm _ _ _ _ _ _ Hp (fm_keys _ Hk) HX) as [rs2a [H2 H2p]].
+             cbn [Model.run Model.step fst snd]. rewrite Ei. cbn [negb]. rewrite H2. cbn [bind].
+             apply (IH (rsa, snd st1) st1' rs2a Hrun Hnea Hka Hhc).
+             cbn [fst]. etransitivity; [symmetry; exact HXp | exact H2p].
+          -- apply (IH (rsa, snd st1) st1' rs2 Hrun Hnea Hka Hhc). cbn [fst].
+             rewrite (add_result_drop _ _ _ _ _ Ep Ea). exact Hp.
+        * injection E as <-. cbn [Model.run Model.step fst snd]. rewrite Ei. cbn [negb bind].
+          apply (IH (fst st1, S (snd st1)) st1' rs2 Hrun Hne Hk Hhc Hp).
   Qed.
 
-  (* ---- unpack and sort commute with filtering the members *)
+  (* ---- unpack and sort *)
 
-  Lemma flat_fm rs : flat group_by close_tests (fm rs) = map fgroup (flat group_by close_tests rs).
+  Definition mkg (k : list gval) (sr : subres F) : group F := (merge_key group_by close_tests k (fst sr), snd sr).
+
+  Lemma flat_cons k subs (r : list (entry F)) :
+    flat group_by close_tests ((k, subs) :: r) = map (mkg k) subs ++ flat group_by close_tests r.
+  Proof. reflexivity. Qed.
+
+  Lemma fgroups_app a b : fgroups (a ++ b) = fgroups a ++ fgroups b.
+  Proof. unfold fgroups. rewrite map_app, filter_app. reflexivity. Qed.
+
+  Lemma fsubs_groups k subs : map (mkg k) (fsubs subs) = fgroups (map (mkg k) subs).
   Proof.
-    unfold flat, fm. induction rs as [|e r IH]; cbn [map flat_map]; [reflexivity|].
-    rewrite map_app, IH. f_equal. cbn [fst snd]. unfold fsubs. rewrite !map_map. reflexivity.
+    induction subs as [|[c ms] rest IH]; [reflexivity|].
+    rewrite fsubs_cons. unfold fgroups, fgroup, mkg in *. cbn [map fst snd]. cbn [filter]. cbn [fst snd].
+    destruct (filter p ms); cbn [ne_list map fst snd]; rewrite IH; reflexivity.
   Qed.
 
-  Lemma dict_set_fgroup k v d : dict_set k (filter p v) (map fgroup d) = map fgroup (dict_set k v d).
+  Lemma flat_fm rs : flat group_by close_tests (fm rs) = fgroups (flat group_by close_tests rs).
   Proof.
-    induction d as [|[k' v'] r IH]; cbn [map dict_set fgroup fst snd]; [reflexivity|].
-    destruct (key_eqb k k'); cbn [map fgroup fst snd]; [reflexivity | rewrite <- IH; reflexivity].
+    induction rs as [|[k subs] r IH]; [reflexivity|].
+    rewrite fm_cons, flat_cons, fgroups_app, <- fsubs_groups, <- IH.
+    destruct (fsubs subs) as [|s ss]; [reflexivity|]. rewrite flat_cons. reflexivity.
   Qed.
 
-  Lemma unpack_fm rs : unpack group_by close_tests (fm rs) = map fgroup (unpack group_by close_tests rs).
+  Lemma all_pairs_FOP (q : group F -> group F -> bool) l :
+    all_pairs q l = true <-> ForallOrdPairs (fun a b => q a b = true) l.
   Proof.
-    unfold unpack. rewrite flat_fm. change (@nil (group F)) with (map fgroup []) at 1.
-    generalize (@nil (group F)). induction (flat group_by close_tests rs) as [|g l IH]; intros acc; cbn [map fold_left].
-    - reflexivity.
-    - cbn [fgroup fst snd]. rewrite dict_set_fgroup. apply IH.
+    induction l as [|x xs IH]; cbn [all_pairs].
+    - split; [constructor | reflexivity].
+    - rewrite andb_true_iff, IH, forallb_forall. split.
+      + intros [H1 H2]. constructor; [apply Forall_forall; exact H1 | exact H2].
+      + intros H. inversion H as [|? ? Hx Hr]; subst. split; [apply Forall_forall; exact Hx | exact Hr].
   Qed.
 
-  Lemma all_pairs_fgroup l : all_pairs lt_ok (map fgroup l) = all_pairs lt_ok l.
+  Lemma lt_ok_sym (a b : group F) : lt_ok a b = true -> lt_ok b a = true.
   Proof.
-    induction l as [|x xs IH]; cbn [map all_pairs]; [reflexivity|]. rewrite IH. f_equal.
-    clear IH. induction xs as [|y ys IHy]; cbn [map forallb]; [reflexivity|]. rewrite IHy. reflexivity.
+    unfold lt_ok. destruct (key_ltb (fst a) (fst b)) as [x|], (key_ltb (fst b) (fst a)) as [y|]; try discriminate.
+    rewrite orb_comm. auto.
   Qed.
 
-  Lemma isort_fgroup l : isort (map fgroup l) = map fgroup (isort l).
+  (** the grouping of the list without the dropped files = the grouping of the full list with the dropped
+      files removed from every group and the emptied groups removed (as a set of groups) *)
+  Lemma parse_and_group_filter warn (l : list (rd F)) gs w :
+    parse_and_group warn l = Ok (gs, w) -> heads_closed p gs ->
+    exists gs2, parse_and_group warn (drop_files p l) = Ok (gs2, w) /\ Permutation gs2 (fgroups gs).
   Proof.
-    induction l as [|x xs IH]; cbn [map isort fold_right]; [reflexivity|].
-    fold (isort (map fgroup xs)). fold (isort xs). rewrite IH.
-    generalize (isort xs). intros s. induction s as [|y ys IHs]; cbn [map insert_sorted]; [reflexivity|].
-    change (group_ltb (fgroup x) (fgroup y)) with (group_ltb x y).
-    destruct (group_ltb x y); cbn [map]; [reflexivity | rewrite IHs; reflexivity].
-  Qed.
-
-  Lemma sort_groups_fgroup l : sort_groups (map fgroup l) = rmap (map fgroup) (sort_groups l).
-  Proof.
-    unfold sort_groups. rewrite all_pairs_fgroup. destruct (all_pairs lt_ok l); cbn [rmap]; [|reflexivity].
-    rewrite isort_fgroup. reflexivity.
-  Qed.
-
-  (** the grouping of the list without the dropped files = the grouping of the full list, members filtered *)
-  Lemma parse_and_group_filter warn l gs w :
-    parse_and_group warn l = Ok (gs, w) ->
-    (forall g f, In g gs -> hd_error (snd g) = Some f -> p f = true) ->
-    parse_and_group warn (drop_files p l) = Ok (map fgroup gs, w).
-  Proof.
-    intros H Hh. destruct (parse_and_group_inv _ _ _ atol_nonneg _ _ _ _ H) as [rs [_ [_ [Hperm Hrun]]]].
-    assert (Hq : heads_ok rs).
-    { intros e He s f Hs Hf. apply (Hh (merge_key group_by close_tests (fst e) (fst s), snd s) f); [|exact Hf].
+    intros H Hh. destruct (parse_and_group_inv _ _ _ atol_nonneg _ _ _ _ H) as [rs [[Hk [He _]] [_ [Hperm Hrun]]]].
+    assert (Hhc : HC rs).
+    { apply Forall_forall. intros e Hie. apply Forall_forall. intros s His f Hf E0.
+      apply (Hh (merge_key group_by close_tests (fst e) (fst s), snd s) f); [|exact Hf | exact E0].
       eapply Permutation_in; [symmetry; exact Hperm|]. apply in_flat. exists e, s. repeat split; assumption. }
-    assert (Hrun' : run warn ([], 0%nat) (drop_files p l) = Ok (fm rs, w)) by exact (run_filter _ _ _ _ Hrun Hq).
-    unfold Model.parse_and_group in *. rewrite Hrun in H. rewrite Hrun'. cbn [bind fst snd] in *.
-    rewrite unpack_fm, sort_groups_fgroup.
-    destruct (sort_groups (unpack group_by close_tests rs)) as [gs0|e]; cbn [bind rmap] in *; [|discriminate].
-    injection H as <-. reflexivity.
+    destruct (run_sim _ _ ([], 0%nat) (rs, w) [] Hrun (Forall_nil _) (FOP_nil _) Hhc (Permutation_refl _)) as [rs2 [Hrun2 Hp2]].
+    cbn [fst snd] in *.
+    pose proof (run_state_inv _ _ _ _ _ _ _ Hrun2) as [[Hk2 [He2 _]] _]. cbn [fst] in *.
+    assert (Hsort : sort_groups (flat group_by close_tests rs) = Ok gs).
+    { unfold Model.parse_and_group in H. rewrite Hrun in H. cbn [bind fst snd] in H.
+      rewrite (unpack_distinct _ _ _ (flat_distinct _ _ _ atol_nonneg _ _ Hk He)) in H.
+      destruct (sort_groups (flat group_by close_tests rs)); cbn [bind] in H; [injection H as <-; reflexivity | discriminate]. }
+    assert (Hflat2 : Permutation (flat group_by close_tests rs2) (fgroups (flat group_by close_tests rs))).
+    { rewrite <- flat_fm. symmetry. unfold flat. apply perm_flat_map. exact Hp2. }
+    assert (Hall : all_pairs lt_ok (flat group_by close_tests rs2) = true).
+    { apply all_pairs_FOP. eapply FOP_perm; [intros x y; apply lt_ok_sym | symmetry; exact Hflat2|].
+      unfold fgroups. apply FOP_filter. apply FOP_map.
+      unfold sort_groups in Hsort. destruct (all_pairs lt_ok (flat group_by close_tests rs)) eqn:Eall; [|discriminate].
+      apply all_pairs_FOP in Eall. eapply FOP_impl_in; [|exact Eall]. intros a b _ _ Hab. exact Hab. }
+    exists (isort (flat group_by close_tests rs2)). split.
+    - unfold Model.parse_and_group. rewrite Hrun2. cbn [bind fst snd].
+      rewrite (unpack_distinct _ _ _ (flat_distinct _ _ _ atol_nonneg _ _ Hk2 He2)).
+      unfold sort_groups. rewrite Hall. reflexivity.
+    - etransitivity; [apply isort_perm|]. etransitivity; [exact Hflat2|].
+      unfold fgroups. apply perm_filter. apply Permutation_map. symmetry. exact Hperm.
   Qed.
 
   (* ---- counting the dropped files *)
@@ -246,7 +452,7 @@ Section Iso.
       + rewrite IH. lia.
   Qed.
 
-  Lemma n_refused_dropped warn l gs w :
+  Lemma n_refused_dropped warn (l : list (rd F)) gs w :
     parse_and_group warn l = Ok (gs, w) -> n_refused gs = (length l - length (drop_files p l))%nat.
   Proof.
     intros H. rewrite n_refused_concat, <- dropped_count.
@@ -254,52 +460,126 @@ Section Iso.
   Qed.
 End Iso.
 
+(* ------------------------------------------------------------------ the stacks *)
+
 Section IsoStack.
   Context {F state : Type}.
   Variable add : state -> F -> state * option err.
+  Variable n_files : state -> nat.
   Hypothesis add_tx : transactional add.
   Variable p : F -> bool.
 
   Local Notation stack_run := (stack_run state add).
-  Local Notation stack_all := (stack_all state add).
+  Local Notation stack_all := (stack_all state add n_files).
 
-  Lemma stack_all_bump warn n init gs : forall w,
-    stack_all warn init gs (n + w) = bump_warn n (stack_all warn init gs w).
+  (** warn mode never raises: the final stack and the number of refusals as plain functions *)
+  Fixpoint srun (st : state) (g : list F) : state * nat :=
+    match g with
+    | [] => (st, 0%nat)
+    | f :: g' => match add st f with
+                 | (st', None) => srun st' g'
+                 | (st', Some _) => (fst (srun st' g'), S (snd (srun st' g')))
+                 end
+    end.
+
+  Lemma stack_run_srun g : forall st w,
+    stack_run true st w g = Ok (fst (srun st g), (w + snd (srun st g))%nat).
   Proof.
-    induction gs as [|[k g] gs IH]; intros w; cbn [Model.stack_all bump_warn]; [reflexivity|].
-    rewrite stack_run_bump. destruct (stack_run warn init w g) as [[st' w']|e]; cbn [bump_warn bind fst snd]; [|reflexivity].
-    rewrite IH. destruct (stack_all warn init gs w') as [[a w'']|e]; cbn [bump_warn bind fst snd]; reflexivity.
+    induction g as [|f g IH]; intros st w; cbn [Model.stack_run srun fst snd].
+    - f_equal. f_equal. lia.
+    - destruct (add st f) as [st' [e|]]; rewrite IH; cbn [fst snd]; [|reflexivity]. f_equal. f_equal. lia.
   Qed.
 
-  Lemma stack_all_filter init gs : forall w,
-    (forall g, In g gs -> refused_along p add init (snd g)) ->
-    stack_all true init gs w = bump_warn (n_refused p gs) (stack_all true init (map (fgroup p) gs) w).
+  Lemma srun_filter st g :
+    refused_along p add st g ->
+    fst (srun st g) = fst (srun st (filter p g)) /\
+    snd (srun st g) = (length g - length (filter p g) + snd (srun st (filter p g)))%nat.
   Proof.
-    induction gs as [|[k g] gs IH]; intros w Hr; cbn [Model.stack_all map fgroup fst snd n_refused bump_warn].
-    - reflexivity.
-    - rewrite (stack_run_filter add add_tx p g init w (Hr (k, g) (or_introl eq_refl))).
-      destruct (stack_run true init w (filter p g)) as [[st' w']|e]; cbn [bump_warn bind fst snd]; [|reflexivity].
-      rewrite stack_all_bump, IH by (intros g0 Hg0; apply Hr; right; exact Hg0).
-      destruct (stack_all true init (map (fgroup p) gs) w') as [[a w'']|e]; cbn [bump_warn bind fst snd]; [|reflexivity].
-      f_equal. f_equal. lia.
+    intros Hr. pose proof (stack_run_filter add add_tx p g st 0%nat Hr) as H.
+    rewrite !stack_run_srun in H. cbn [bump_warn] in H. injection H as H1 H2. split; [exact H1 | lia].
+  Qed.
+
+  Definition keep_stack (init : state) (kg : group F) : list (list gval * state) :=
+    let r := srun init (snd kg) in
+    if Nat.eqb (n_files (fst r)) 0 then [] else [(fst kg, fst r)].
+
+  Definition refusals (init : state) (gs : list (group F)) : nat :=
+    list_sum (map (fun g => snd (srun init (snd g))) gs).
+
+  Lemma stack_all_closed init gs : forall w,
+    stack_all true init gs w = Ok (flat_map (keep_stack init) gs, (w + refusals init gs)%nat).
+  Proof.
+    unfold refusals. induction gs as [|[k g] gs IH]; intros w; cbn [Model.stack_all map].
+    - cbn [flat_map]. f_equal. f_equal. unfold list_sum. cbn [fold_right]. lia.
+    - rewrite stack_run_srun. cbn [bind fst snd]. rewrite IH. cbn [bind fst snd].
+      assert (E : (w + snd (srun init g) + list_sum (map (fun g0 => snd (srun init (snd g0))) gs)
+                   = w + list_sum (snd (srun init g) :: map (fun g0 => snd (srun init (snd g0))) gs))%nat)
+        by (unfold list_sum; cbn [fold_right]; lia).
+      rewrite E. change (flat_map (keep_stack init) ((k, g) :: gs)) with (keep_stack init (k, g) ++ flat_map (keep_stack init) gs).
+      assert (Ek : keep_stack init (k, g) = if Nat.eqb (n_files (fst (srun init g))) 0 then [] else [(k, fst (srun init g))]) by reflexivity.
+      rewrite Ek. destruct (Nat.eqb (n_files (fst (srun init g))) 0); reflexivity.
+  Qed.
+
+  Lemma stack_all_perm init gs gs' w :
+    Permutation gs gs' ->
+    exists sts sts' n, stack_all true init gs w = Ok (sts, n) /\ stack_all true init gs' w = Ok (sts', n) /\
+                       Permutation sts sts'.
+  Proof.
+    intros Hp. rewrite !stack_all_closed. eexists. eexists. eexists. split; [reflexivity|]. split.
+    - f_equal. f_equal. f_equal. unfold refusals. symmetry. apply list_sum_perm. apply Permutation_map. exact Hp.
+    - apply perm_flat_map. exact Hp.
+  Qed.
+
+  Lemma fgroups_cons k g (gs : list (group F)) :
+    fgroups p ((k, g) :: gs) = match filter p g with [] => fgroups p gs | _ => (k, filter p g) :: fgroups p gs end.
+  Proof. unfold fgroups, fgroup. cbn [map fst snd]. cbn [filter]. cbn [fst snd]. destruct (filter p g); reflexivity. Qed.
+
+  (** the full groups against the groups without the dropped files *)
+  Lemma stacks_filter init gs :
+    n_files init = 0%nat ->
+    (forall g, In g gs -> refused_along p add init (snd g)) ->
+    flat_map (keep_stack init) gs = flat_map (keep_stack init) (fgroups p gs) /\
+    refusals init gs = (n_refused p gs + refusals init (fgroups p gs))%nat.
+  Proof.
+    intros H0. induction gs as [|[k g] gs IH]; intros Hr; [split; reflexivity|].
+    destruct (IH (fun g0 Hg0 => Hr g0 (or_intror Hg0))) as [IH1 IH2].
+    destruct (srun_filter init g (Hr (k, g) (or_introl eq_refl))) as [S1 S2].
+    assert (Ek : forall g', keep_stack init (k, g') = if Nat.eqb (n_files (fst (srun init g'))) 0 then [] else [(k, fst (srun init g'))])
+      by reflexivity.
+    assert (Er : forall (x : group F) xs, refusals init (x :: xs) = (snd (srun init (snd x)) + refusals init xs)%nat)
+      by (intros; unfold refusals, list_sum; reflexivity).
+    rewrite fgroups_cons. cbn [flat_map n_refused fst snd]. rewrite Ek, Er. cbn [snd].
+    destruct (filter p g) as [|y ys] eqn:Ef.
+    - cbn [srun fst snd length] in S1, S2. rewrite S1, H0. cbn [Nat.eqb app]. split; [exact IH1|]. rewrite S2, IH2. cbn [length]. lia.
+    - cbn [flat_map]. rewrite Ek, Er, S1, IH1. cbn [snd]. split; [reflexivity|]. rewrite S2, IH2. lia.
   Qed.
 End IsoStack.
 
-(** parse_and_stack in warn mode: the image files failing [p] are each refused by add_dcm when their
-    turn comes and none of them is the first file of its group  ==>  the result is the result of the
-    path list without them (one more warning per file). *)
-Theorem parse_and_stack_isolation {F state} (add : state -> F -> state * option err) (p : F -> bool)
-        group_by atol init (l : list (rd F)) gs w :
-  0 <= atol -> transactional add ->
+(** parse_and_stack in warn mode.  [p] selects the files to keep.  If every image file failing [p] is
+    refused by (transactional) add_dcm when its turn comes, a fresh stack holds no file, and every group
+    that starts with a dropped file consists of dropped files only, then the result is the result for
+    the path list without those files: the same (key, stack) pairs and one more warning per dropped file. *)
+Theorem parse_and_stack_isolation {F state} (add : state -> F -> state * option err) (n_files : state -> nat)
+        (p : F -> bool) group_by atol init (l : list (rd F)) gs w :
+  0 <= atol -> transactional add -> n_files init = 0%nat ->
   parse_and_group group_by default_close_keys atol true l = Ok (gs, w) ->
-  (forall g f, In g gs -> hd_error (snd g) = Some f -> p f = true) ->
+  heads_closed p gs ->
   (forall g, In g gs -> refused_along p add init (snd g)) ->
-  parse_and_stack state add group_by atol true init l
-  = bump_warn (length l - length (drop_files p l))
-              (parse_and_stack state add group_by atol true init (drop_files p l)).
+  exists sts sts' w',
+    parse_and_stack state add n_files group_by atol true init l = Ok (sts, (length l - length (drop_files p l) + w')%nat) /\
+    parse_and_stack state add n_files group_by atol true init (drop_files p l) = Ok (sts', w') /\
+    Permutation sts sts'.
 Proof.
-  intros Hat Htx H Hh Hr. unfold parse_and_stack.
-  rewrite (parse_and_group_filter _ _ _ Hat p _ _ _ _ H Hh), H. cbn [bind fst snd].
-  rewrite (stack_all_filter add Htx p init gs w Hr).
-  rewrite (n_refused_dropped _ _ _ Hat p _ _ _ _ H). reflexivity.
+  intros Hat Htx H0 H Hh Hr. unfold parse_and_stack.
+  destruct (parse_and_group_filter _ _ _ Hat p _ _ _ _ H Hh) as [gs2 [H2 Hp2]].
+  rewrite H, H2. cbn [bind fst snd]. rewrite !stack_all_closed.
+  destruct (stacks_filter add n_files Htx p init gs H0 Hr) as [E1 E2].
+  exists (flat_map (keep_stack add n_files init) gs), (flat_map (keep_stack add n_files init) gs2),
+         (w + refusals add init gs2)%nat.
+  split; [|split; [reflexivity|]].
+  - f_equal. f_equal. rewrite E2, (n_refused_dropped _ _ _ Hat p _ _ _ _ H).
+    assert (E3 : refusals add init gs2 = refusals add init (fgroups p gs)).
+    { unfold refusals. apply list_sum_perm. apply Permutation_map. exact Hp2. }
+    rewrite E3. lia.
+  - rewrite E1. apply perm_flat_map. symmetry. exact Hp2.
 Qed.
